@@ -444,7 +444,9 @@ class Models(Structural):
     @reg('numpy.logspace')
     def np_logspace(self, start, stop, num=50, base=10):
         lin = self.np_linspace(start, stop, num)
-        return emap(lambda e: T.spow(base, e), 'float', lin)
+        # lazy even for concrete sizes: the pow() identity instances are only emitted for elements that are read
+        rd = A.reader(lin)
+        return CArr.from_fn(lambda i: T.spow(base, rd(i)), lin.shape, 'float')
 
     # ===================================================================================== elementwise
     def _ew1(self, f, x, dtype=None):
@@ -602,8 +604,10 @@ class Models(Structural):
                                          z3.And(0 <= w(k), w(k) < nz, T.to_bool_term(T.truthy(rd(w(k)))))), patterns=[w(k)]))
         c.fact(z3.ForAll([a_, b_], z3.Implies(z3.And(0 <= a_, a_ < b_, b_ < m), w(a_) < w(b_)),
                          patterns=[z3.MultiPattern(w(a_), w(b_))]))
-        c.fact(z3.ForAll([i], z3.Implies(z3.And(0 <= i, i < nz, T.to_bool_term(T.truthy(rd(i)))),
-                                         z3.And(0 <= pos(i), pos(i) < m, w(pos(i)) == i)), patterns=[pos(i)]))
+        ci = T.to_bool_term(T.truthy(rd(i)))
+        cpat = find_pattern(ci, [i])
+        c.fact(z3.ForAll([i], z3.Implies(z3.And(0 <= i, i < nz, ci), z3.And(0 <= pos(i), pos(i) < m, w(pos(i)) == i)),
+                         patterns=[pos(i)] + ([cpat] if cpat is not None else [])))
         c.assumed.append('numpy.where')
         r = CArr.from_fn(lambda j: N(w(T.to_int_term(j))), (m,), 'int', meta={'where': (cond, pos, w, m)})
         c.cache[key] = r
